@@ -234,7 +234,7 @@ def coq_check_properties(pid, timeout=900):
         if b.startswith("Closed"):
             assumptions[name] = []
         else:
-            ax = re.findall(r"^([\w.']+)\s*:", b, re.M)
+            ax = [a for a in re.findall(r"^([\w.']+)\s*:", b, re.M) if a != "Axioms"]
             assumptions[name] = ax
     return dict(ok=(rc == 0), theorems=thms, printed=printed, assumptions=assumptions, log=out)
 
